@@ -24,6 +24,7 @@ Seeds == { <<60,33,45,45,45,62,45,45,62>>,                         \* <!--->-->
            <<60,33,45,45,97,45,45,45,62>>, <<60,33,45,45,45,45,97,45,45,62>>,
            <<60,97,47,62,60,47,97,62,60,47,98,62>>,
            <<239,187,191,60,97,62>>,
+           <<60,33,68,111,99,84,121,112,101,32,97,62,60,97,47,62>>,        \* <!DocType a><a/>  (mixed-case keyword)
            \* DOCTYPE with markup nested two levels deep: <!DOCTYPE r [<!-- <!E> -->]><r/>
            <<60,33,68,79,67,84,89,80,69,32,114,32,91,60,33,45,45,32,60,33,69,62,32,45,45,62,93,62,60,114,47,62>> }
 
